@@ -1,15 +1,18 @@
 // Package c10 checks property C10: cancellation always stops execution promptly.
 //
-// A counting context cancels at an exact poll index k (the code only calls Done() and
-// context.Cause()). For every program and every k the monitor checks: the wait returns, with a
+// A counting context ends at an exact poll index k (a poll = a call of Done() or Err(); the
+// unchanged code only calls Done() and context.Cause()), in one of the ways a host ends a context:
+// cancel(), cancel(cause), deadline expired, deadline expired with a cause. For every program and every k the monitor checks: the wait returns, with a
 // termination interrupt or the program's own outcome; no core executes more than B steps after the
 // cancelling poll (step hook, decided by steps, not time); no goroutine stays inside Core.Run.
 package c10
 
 import (
 	"context"
+	"errors"
 	"fmt"
 	goruntime "runtime"
+	"sort"
 	"strings"
 	"sync"
 	"sync/atomic"
@@ -39,9 +42,9 @@ const StepBound = 10000
 func (c10) Info(tier string) fw.Info {
 	return fw.Info{
 		Level: "exploration",
-		Rule: "for each of the listed programs (straight-line, empty and working infinite loops, recursion, try/catch with throws, blocking builtin, 1-4 spawned cores, a core failing) and each backend, the context is cancelled at the k-th poll for every k in 1..Kmax (VM: every k; interpreter: every k up to 60, then strides); " +
+		Rule: "for each of the listed programs (straight-line, empty and working infinite loops, recursion, try/catch with throws, blocking builtin, 1-4 spawned cores, a core failing) and each backend, the context is cancelled at the k-th poll for every k in 1..Kmax (VM: every k; interpreter: every k up to 60, then strides) by the host's cancel(); the same programs and backends again with the context ended the other ways a host ends it - deadline expired (Err()=DeadlineExceeded; quick: a ladder of k = 1,2,3,5,8,.. kmax, kmax+1 and three seed-chosen k, thorough: every k), cancel(cause) and deadline-with-cause (every third rung); a poll is a call of Done() or Err(); " +
 			"oracle: wait/run returns a termination interrupt or the program's own outcome (known from an uncancelled run when the program is finite); every core stops within B=10000 steps after the cancelling poll (step hook); after return no goroutine has a frame in Core.Run (stack samples until 5 identical ones); race log empty. " +
-			"non-trivial = the cancellation actually fired during the run; distinct = (program, backend, k)",
+			"non-trivial = the context actually ended during the run; distinct = (program, backend, end mode, k)",
 		Assumptions: []string{
 			"host builtins that ignore the context are the host's responsibility (the harness builtin vsleep polls it)",
 			"a wait that neither returns nor steps is decided by goroutine state samples (all homescript goroutines blocked for 50 consecutive samples), otherwise by the per-case watchdog (inconclusive)",
@@ -100,6 +103,76 @@ type Payload struct {
 	K       int64  `json:"k"`
 	// ArmEarly: count polls from the creation of the VM (includes @init) instead of after NewVM.
 	ArmEarly bool `json:"arm_early,omitempty"`
+	// End: how the context ends at poll K (one of endModes; empty = cancel).
+	End string `json:"end,omitempty"`
+}
+
+func (p Payload) end() string {
+	if p.End == "" {
+		return endCancel
+	}
+	return p.End
+}
+
+// sampleKs: cancellation points for the end modes that are not enumerated exhaustively: the first
+// polls, a geometric ladder up to kmax, the poll after the last one of the uncancelled run, and
+// three seed-chosen ones.
+func sampleKs(kmax int, rng *fw.Rng) []int {
+	set := map[int]bool{}
+	for a, b := 1, 2; a <= kmax; a, b = b, a+b {
+		set[a] = true
+	}
+	set[kmax] = true
+	set[kmax+1] = true
+	for i := 0; i < 3; i++ {
+		set[1+rng.Intn(kmax+1)] = true
+	}
+	ks := make([]int, 0, len(set))
+	for k := range set {
+		ks = append(ks, k)
+	}
+	sort.Ints(ks)
+	return ks
+}
+
+// endCases: the same programs and backends with the context ended in the other ways a host ends a
+// context. Deadline expiry gets the whole ladder (thorough: every k of the cancel enumeration),
+// the cause-carrying variants every third rung.
+func endCases(tier string, seed uint64) []fw.Case {
+	var cases []fw.Case
+	rng := fw.NewRng(seed ^ 0xC10E4D)
+	for pi, p := range programs {
+		for _, be := range []string{"vm", "tree"} {
+			kmax := p.kmaxVM
+			if be == "tree" {
+				if p.multi {
+					continue
+				}
+				kmax = p.kmaxTree
+			}
+			ladder := sampleKs(kmax, rng.Fork())
+			for _, mode := range endModes[1:] {
+				ks := ladder
+				if mode == endDeadline && tier == "thorough" {
+					ks = ks[:0:0]
+					for k := 1; k <= kmax+1; k++ {
+						ks = append(ks, k)
+					}
+				}
+				for i, k := range ks {
+					if mode != endDeadline && len(ks) > 4 && i%3 != pi%3 {
+						continue
+					}
+					tags := []string{"end-" + mode}
+					if be == "tree" && strings.Contains(p.name, "empty") {
+						tags = append(tags, "empty-loop")
+					}
+					cases = append(cases, fw.MkCase(fmt.Sprintf("c10-%s-%s-%s-%d", p.name, be, mode, k), "cancel", Payload{Prog: pi, Backend: be, K: int64(k), End: mode}, tags...))
+				}
+			}
+		}
+	}
+	return cases
 }
 
 func (c10) Cases(tier string, seed uint64) []fw.Case {
@@ -126,6 +199,7 @@ func (c10) Cases(tier string, seed uint64) []fw.Case {
 	for pi, p := range programs[:3] {
 		cases = append(cases, fw.MkCase(fmt.Sprintf("c10-%s-vm-init-1", p.name), "cancel-init", Payload{Prog: pi, Backend: "vm", K: 1, ArmEarly: true}, "cancel-during-init"))
 	}
+	cases = append(cases, endCases(tier, seed)...)
 	return cases
 }
 
@@ -141,44 +215,169 @@ func resolve(p Payload) int {
 	return p.Prog
 }
 
-// countingCtx cancels itself at the k-th poll of Done() once armed.
+// End modes: HOW the host's context ends at the k-th poll. The property speaks of the context
+// being cancelled "at any moment"; a host ends a context either by calling its cancel function or
+// by letting its deadline expire (that is how every host in the repository bounds the run time:
+// context.WithTimeout), each optionally with a cause. The code under test must stop in all of them.
+const (
+	endCancel        = "cancel"         // cancel(): Err()==Canceled, Cause==Canceled
+	endDeadline      = "deadline"       // deadline expired: Err()==DeadlineExceeded
+	endCause         = "cause"          // cancel(cause): Err()==Canceled, Cause==custom error
+	endDeadlineCause = "deadline-cause" // WithDeadlineCause expired: Err()==DeadlineExceeded, Cause==custom error
+)
+
+var endModes = []string{endCancel, endDeadline, endCause, endDeadlineCause}
+
+var errHostCause = errors.New("host: stop requested")
+
+// endedContext returns a REAL context of package context that has ended in the given way (no
+// wall-clock involved: a deadline at the Unix epoch has always expired, WithDeadline then ends the
+// context synchronously). The counting context delegates Err/Value/Deadline to it once ended, so
+// the code under test sees exactly what a real context reports (including context.Cause).
+func endedContext(mode string) context.Context {
+	bg := context.Background()
+	switch mode {
+	case endDeadline:
+		c, cancel := context.WithDeadline(bg, time.Unix(1, 0))
+		_ = cancel
+		return c
+	case endDeadlineCause:
+		c, cancel := context.WithDeadlineCause(bg, time.Unix(1, 0), errHostCause)
+		_ = cancel
+		return c
+	case endCause:
+		c, cancel := context.WithCancelCause(bg)
+		cancel(errHostCause)
+		return c
+	default:
+		c, cancel := context.WithCancel(bg)
+		cancel()
+		return c
+	}
+}
+
+// countingCtx ends itself at the k-th poll once armed. A poll is any question "are we done?" put
+// to the context by the code under test: a call of Done() or of Err() (both are legitimate ways
+// to poll; the unchanged code only uses Done()).
 type countingCtx struct {
 	mu     sync.Mutex
 	k      int64
+	mode   string // how the context ends at the k-th poll
 	polls  int64
 	armed  bool
 	ch     chan struct{}
 	closed atomic.Bool
+	ended  atomic.Pointer[context.Context] // set before closed
 }
 
-func newCountingCtx(k int64) *countingCtx { return &countingCtx{k: k, ch: make(chan struct{})} }
+func newCountingCtx(k int64) *countingCtx { return newCountingCtxMode(k, endCancel) }
 
-func (c *countingCtx) Deadline() (time.Time, bool) { return time.Time{}, false }
-func (c *countingCtx) Done() <-chan struct{} {
-	c.mu.Lock()
+func newCountingCtxMode(k int64, mode string) *countingCtx {
+	if mode == "" {
+		mode = endCancel
+	}
+	return &countingCtx{k: k, mode: mode, ch: make(chan struct{})}
+}
+
+// farFuture is the deadline reported by the deadline modes while the context is alive.
+var farFuture = time.Unix(1<<40, 0)
+
+func (c *countingCtx) Deadline() (time.Time, bool) {
+	if e := c.ended.Load(); e != nil {
+		return (*e).Deadline()
+	}
+	if c.mode == endDeadline || c.mode == endDeadlineCause {
+		return farFuture, true
+	}
+	return time.Time{}, false
+}
+
+// end must be called with mu held.
+func (c *countingCtx) end(mode string) {
+	if c.closed.Load() {
+		return
+	}
+	e := endedContext(mode)
+	c.ended.Store(&e)
+	c.closed.Store(true)
+	close(c.ch)
+}
+
+// poll must be called with mu held.
+func (c *countingCtx) poll() {
 	if c.armed && !c.closed.Load() {
 		c.polls++
 		if c.polls >= c.k {
-			c.closed.Store(true)
-			close(c.ch)
+			c.end(c.mode)
 		}
 	}
+}
+
+func (c *countingCtx) Done() <-chan struct{} {
+	c.mu.Lock()
+	c.poll()
 	c.mu.Unlock()
 	return c.ch
 }
 func (c *countingCtx) Err() error {
-	if c.closed.Load() {
-		return context.Canceled
+	c.mu.Lock()
+	c.poll()
+	c.mu.Unlock()
+	if e := c.ended.Load(); e != nil {
+		return (*e).Err()
 	}
 	return nil
 }
-func (c *countingCtx) Value(any) any { return nil }
+func (c *countingCtx) Value(key any) any {
+	// context.Cause finds the cause through Value
+	if e := c.ended.Load(); e != nil {
+		return (*e).Value(key)
+	}
+	return nil
+}
+
+// cancelNow is the host's cancel function: an explicit cancel() whatever the mode.
 func (c *countingCtx) cancelNow() {
 	c.mu.Lock()
-	if !c.closed.Load() {
-		c.closed.Store(true)
-		close(c.ch)
+	c.end(endCancel)
+	c.mu.Unlock()
+}
+func endText(mode string) string {
+	switch mode {
+	case endDeadline:
+		return "deadline expired: Err()=context.DeadlineExceeded"
+	case endDeadlineCause:
+		return "deadline expired with a cause: Err()=context.DeadlineExceeded, Cause=custom error"
+	case endCause:
+		return "cancel(cause): Err()=context.Canceled, Cause=custom error"
 	}
+	return "cancel(): Err()=context.Canceled"
+}
+
+// describe says how and when the context ended (for the violation text).
+func (c *countingCtx) describe() string {
+	c.mu.Lock()
+	defer c.mu.Unlock()
+	e := c.ended.Load()
+	if e == nil {
+		return fmt.Sprintf("was not ended (k=%d, %d polls)", c.k, c.polls)
+	}
+	how := endText(c.mode)
+	if (*e).Err() == context.Canceled && c.mode != endCancel && c.mode != endCause {
+		how = endText(endCancel) + " by the cancel function"
+	}
+	at := fmt.Sprintf("at poll %d", c.k)
+	if c.polls < c.k {
+		at = fmt.Sprintf("asynchronously after %d polls (poll k=%d was never reached)", c.polls, c.k)
+	}
+	return fmt.Sprintf("was ended (%s) %s", how, at)
+}
+
+// endNow ends the context asynchronously in its own mode (a deadline expires whether or not
+// anybody polls).
+func (c *countingCtx) endNow() {
+	c.mu.Lock()
+	c.end(c.mode)
 	c.mu.Unlock()
 }
 func (c *countingCtx) arm() { c.mu.Lock(); c.armed = true; c.mu.Unlock() }
@@ -210,7 +409,7 @@ func installHooks() {
 				// the k-th poll was not reached within the step budget (the core may have stopped
 				// polling): the host cancels asynchronously, "at any moment of the run"
 				if st.total.Add(1) == preCancelSteps && st.cc.k < 1<<50 {
-					st.cc.cancelNow()
+					st.cc.endNow()
 				}
 				return
 			}
@@ -265,7 +464,7 @@ func (c10) Run(c fw.Case) fw.Result {
 	p.Prog = resolve(p)
 	pg := programs[p.Prog]
 	src := drive.Sources{"main": pg.src}
-	res := fw.Result{Verdict: fw.Held, Cover: []string{"prog:" + pg.name, "backend:" + p.Backend}}
+	res := fw.Result{Verdict: fw.Held, Cover: []string{"prog:" + pg.name, "backend:" + p.Backend, "end:" + p.end(), p.Backend + "/end:" + p.end()}}
 	ao := drive.Analyze(src, "main", true)
 	if ao.Errors > 0 {
 		res.Verdict, res.Sig, res.Why = fw.Violated, "harness:program-rejected", "listed program rejected: "+ao.ErrorSummary()
@@ -283,7 +482,7 @@ func runTree(p Payload, pg program, ao drive.AnalyzeOut, src drive.Sources, res 
 	if !pg.infinite {
 		own = drive.RunTree(ao.Modules, src, "main", drive.TreeOpts{StepBudget: 5_000_000, CallLimit: 100}).Outcome
 	}
-	cc := newCountingCtx(p.K)
+	cc := newCountingCtxMode(p.K, p.end())
 	cc.arm()
 	var after, total int64
 	exceeded := false
@@ -292,7 +491,7 @@ func runTree(p Payload, pg program, ao drive.AnalyzeOut, src drive.Sources, res 
 		if total == preCancelSteps && !cc.closed.Load() {
 			// the k-th poll was not reached within the step budget (the code may not poll at all):
 			// the host cancels asynchronously, "at any moment of the run"
-			cc.cancelNow()
+			cc.endNow()
 		}
 		if cc.closed.Load() {
 			after++
@@ -319,13 +518,13 @@ func runTree(p Payload, pg program, ao drive.AnalyzeOut, src drive.Sources, res 
 	switch {
 	case exceeded:
 		res.Verdict, res.Sig = fw.Violated, "tree:no-stop-within-bound"
-		res.Why = fmt.Sprintf("interpreter executed more than %d steps after the context was cancelled at poll %d (program %s)", StepBound, p.K, pg.name)
+		res.Why = fmt.Sprintf("interpreter executed more than %d steps after the context %s (program %s)", StepBound, cc.describe(), pg.name)
 	case out.Class == "go-panic":
 		res.Verdict, res.Sig = fw.Violated, "tree:go-panic:"+util.NormPanic(out.Message)
-		res.Why = fmt.Sprintf("interpreter panicked: %s (program %s, k=%d)", out.Message, pg.name, p.K)
+		res.Why = fmt.Sprintf("interpreter panicked: %s (program %s, k=%d, end=%s)", out.Message, pg.name, p.K, p.end())
 	case cc.closed.Load() && out.Class != "terminate" && (pg.infinite || !sameOutcome(out, own)):
 		res.Verdict, res.Sig = fw.Violated, "tree:wrong-outcome:"+out.Class
-		res.Why = fmt.Sprintf("after cancellation at poll %d the interpreter returned %s (own outcome %s) for program %s", p.K, out, own, pg.name)
+		res.Why = fmt.Sprintf("after the context %s the interpreter returned %s (own outcome %s) for program %s", cc.describe(), out, own, pg.name)
 	case !cc.closed.Load() && !pg.infinite && !sameOutcome(out, own):
 		res.Verdict, res.Sig = fw.Violated, "tree:outcome-changed-without-cancel"
 		res.Why = fmt.Sprintf("without cancellation the interpreter returned %s, expected %s", out, own)
@@ -365,7 +564,7 @@ func runVM(p Payload, pg program, ao drive.AnalyzeOut, src drive.Sources, res fw
 		}()
 		stableCoreGoroutines()
 	}
-	cc := newCountingCtx(p.K)
+	cc := newCountingCtxMode(p.K, p.end())
 	if p.ArmEarly {
 		cc.arm()
 	}
@@ -433,10 +632,10 @@ func runVM(p Payload, pg program, ao drive.AnalyzeOut, src drive.Sources, res fw
 	}
 	switch {
 	case out.Class == "deadlock":
-		fail("vm:wait-never-returns", fmt.Sprintf("%s (program %s, k=%d)", out.Message, pg.name, p.K))
+		fail("vm:wait-never-returns", fmt.Sprintf("%s (program %s, context %s)", out.Message, pg.name, cc.describe()))
 		return res
 	case cc.closed.Load() && out.Class != "terminate" && (pg.infinite || (!pg.multi && !sameOutcome(out, own)) || (pg.multi && out.Class != own.Class)):
-		fail("vm:wrong-outcome:"+out.Class, fmt.Sprintf("after cancellation at poll %d the wait returned %s (own outcome %s) for program %s", p.K, out, own, pg.name))
+		fail("vm:wrong-outcome:"+out.Class, fmt.Sprintf("after the context %s the wait returned %s (own outcome %s) for program %s", cc.describe(), out, own, pg.name))
 	case !cc.closed.Load() && !pg.infinite && out.Class != own.Class:
 		fail("vm:outcome-changed-without-cancel", fmt.Sprintf("without cancellation the wait returned %s, expected %s", out, own))
 	}
@@ -445,10 +644,10 @@ func runVM(p Payload, pg program, ao drive.AnalyzeOut, src drive.Sources, res fw
 	if !stable {
 		res.Cover = append(res.Cover, "leak-sample-unstable")
 	} else if n != 0 {
-		fail("vm:core-goroutine-left", fmt.Sprintf("%d goroutine(s) still inside Core.Run after the wait returned (program %s, k=%d):\n%s", n, pg.name, p.K, util.Clip(dump, 1500)))
+		fail("vm:core-goroutine-left", fmt.Sprintf("%d goroutine(s) still inside Core.Run after the wait returned (program %s, context %s):\n%s", n, pg.name, cc.describe(), util.Clip(dump, 1500)))
 	}
 	if p.K == 3 {
-		res.Sample = map[string]any{"program": pg.name, "src": pg.src, "backend": "vm", "k": p.K, "outcome": out.String(), "polls": cc.polls, "max_steps_after_cancel": maxAfter}
+		res.Sample = map[string]any{"program": pg.name, "src": pg.src, "backend": "vm", "k": p.K, "end": p.end(), "outcome": out.String(), "polls": cc.polls, "max_steps_after_cancel": maxAfter}
 	}
 	return res
 }
@@ -480,14 +679,14 @@ func (c10) OnCrash(c fw.Case, cr fw.Crash) fw.Result {
 	pg := programs[resolve(p)]
 	switch cr.Kind {
 	case "watchdog", "killed":
-		return fw.Result{Verdict: fw.Inconclusive, Why: fmt.Sprintf("%s: %s (program %s, backend %s, k=%d)", cr.Kind, cr.Message, pg.name, p.Backend, p.K)}
+		return fw.Result{Verdict: fw.Inconclusive, Why: fmt.Sprintf("%s: %s (program %s, backend %s, k=%d, end=%s)", cr.Kind, cr.Message, pg.name, p.Backend, p.K, p.end())}
 	case "step-budget":
 		return fw.Result{Verdict: fw.Violated, Nontrivial: true, Sig: p.Backend + ":no-stop-within-bound",
-			Why: fmt.Sprintf("a core executed more than %d steps after the context was cancelled at poll %d (program %s)", StepBound, p.K, pg.name)}
+			Why: fmt.Sprintf("a core executed more than %d steps after the context was ended (%s) at poll %d (program %s)", StepBound, endText(p.end()), p.K, pg.name)}
 	}
 	return fw.Result{Verdict: fw.Violated, Nontrivial: true,
 		Sig: fmt.Sprintf("%s:crash:%s:%s:%s", p.Backend, cr.Kind, util.NormPanic(cr.Message), cr.TopFrame),
-		Why: fmt.Sprintf("worker died (%s: %s) at %s (program %s, k=%d)\n%s", cr.Kind, util.Clip(cr.Message, 300), cr.TopFrame, pg.name, p.K, util.Clip(cr.StderrTail, 1500))}
+		Why: fmt.Sprintf("worker died (%s: %s) at %s (program %s, k=%d, end=%s)\n%s", cr.Kind, util.Clip(cr.Message, 300), cr.TopFrame, pg.name, p.K, p.end(), util.Clip(cr.StderrTail, 1500))}
 }
 
 func runTreeRaw(ao drive.AnalyzeOut, src drive.Sources, ctx context.Context, limit uint) drive.Outcome {
